@@ -161,3 +161,15 @@ CHECKS["C11"] = {
     "design_ref": "5/C11",
     "assumptions": TRUST,
 }
+
+CHECKS["C12"] = {
+    "tests": [T("TestC12Message", 600, 12000), T("TestC12Frame", 300, 6000)],
+    "fuzz": [("FuzzC12Message", "120s"), ("FuzzC12Frame", "90s")],
+    "level": "exploration",
+    "technique": "property-based testing (rapid): grammar- and mutation-generated messages on the topic and the direct channel, generated length-prefixed frames on a libp2p stream; thorough tier adds coverage-guided native Go fuzzing of both; oracle: process survives (crash = driver re-executes the journaled case), later valid message still handled, state only holds honest entries",
+    "rule": "TestC12Message: a real head announcement (1-3 real entries) is transformed by 1-3 drawn mutations - delete/set one of 24 JSON paths (address, heads, a head, identity and its fields, clock, hash, key, sig, next, refs, payload, id, v) to one of 23 hostile values (null, {}, [], [null], [{}], ill-typed scalars, huge numbers, deep nesting, partial identities...), duplicate a member, replace everything by one of 22 raw constants, flip a byte, truncate, splice a token - and injected 1-2 times on the victim's topic or direct channel; then an honest canary on the same route must become visible and the victim must hold only honest entries with honest content, lose nothing it held, and match the order/view models. TestC12Frame: 1-4 frames written on a /go-orbit-db/direct-channel stream between two mocknet hosts, prefix in {exact, zero, short, long, limit+1, 3x limit, 2^63, 2^64-1, ten 0xff bytes, none, 0-12 raw bytes}, body sizes around the varint boundaries and up to 70000, optionally cut short; then a valid Send must be delivered exactly once, intact, attributed to the sender, nothing over the limit is delivered, complete valid frames are delivered intact in order, the sender receives nothing. A panic in a library goroutine kills the test process: the driver re-executes the journaled case and reports it. non-trivial = the message decodes as a MessageExchangeHeads / the frame got past the length prefix; distinct = SHA-1 of the case JSON. Thorough: native fuzzing (FuzzC12Message seeded with the constants and a real message, FuzzC12Frame seeded with boundary prefixes) for a wall-clock budget; a budget hit is not a verdict",
+    "level_text": "Generated and fuzzed inputs; absence of crashes is only shown for what was generated.",
+    "level_note": "The topic/direct payloads are injected at the transport interface (the bytes a remote peer controls); frames go through real libp2p mocknet streams and the real stream handler.",
+    "design_ref": "5/C12",
+    "assumptions": TRUST,
+}
